@@ -573,7 +573,42 @@ func pipeShutdown(l *pipeLog, st startState, kind string, rep int) error {
 	alive := true
 	switch kind {
 	case "fini":
+		// every other repetition: a ChannelEvents forwarder is running and its reader is not receiving when Fini
+		// comes (events queued or in the forwarder's hand): the channel is closed all the same, nothing stale is
+		// delivered after Fini, and the forwarder has returned
+		var fch chan tcell.Event
+		fwdDone := make(chan struct{})
+		if rep%2 == 1 {
+			fch = make(chan tcell.Event)
+			go func() { s.ChannelEvents(fch, make(chan struct{})); close(fwdDone) }()
+			time.Sleep(2 * time.Millisecond)
+		}
 		alive = step("Fini", s.Fini)
+		if alive && fch != nil {
+			time.Sleep(20 * time.Millisecond)
+			stale, closedF := 0, false
+			deadline := time.After(time.Second)
+		fwd:
+			for {
+				select {
+				case _, ok := <-fch:
+					if !ok {
+						closedF = true
+						break fwd
+					}
+					stale++
+				case <-deadline:
+					break fwd
+				}
+			}
+			returned := false
+			select {
+			case <-fwdDone:
+				returned = true
+			case <-time.After(500 * time.Millisecond):
+			}
+			e["fwd"] = map[string]interface{}{"closed": closedF, "stale": stale, "returned": returned}
+		}
 	case "suspend":
 		alive = step("Suspend", func() { s.Suspend() })
 	case "suspend-resume-fini":
